@@ -89,6 +89,7 @@ type fixtures struct {
 	mani     map[string]manifest.Manifest // by kind A B I W
 	ver      map[string][]byte            // hash per kind
 	kindOf   map[string]string            // hex hash -> kind
+	byArray  map[*manifest.Group]string   // first element of a fixture manifest's backing array -> kind
 }
 
 var fx fixtures
@@ -154,8 +155,15 @@ func initFixtures() error {
 		"W": mkManifest("w", 1),
 		"C": mkManifest("c", 1),
 	}
+	if err := pmanifest.VerifC20Shape(); err != nil {
+		return fmt.Errorf("provider/manifest no longer has the shape the in-package view relies on: %v", err)
+	}
 	fx.ver = map[string][]byte{}
 	fx.kindOf = map[string]string{}
+	fx.byArray = map[*manifest.Group]string{}
+	for k, m := range fx.mani {
+		fx.byArray[&m[0]] = k
+	}
 	for k, m := range fx.mani {
 		v, err := sdl.ManifestVersion(m)
 		if err != nil {
@@ -228,6 +236,7 @@ type entry struct {
 	pub   event.ManifestReceived
 	err   error
 	hosts string
+	pubh  string // ePub: hash of the manifest the event carried WHEN it was published (identified by content)
 	// eLease / eRm: who handed the value over and the position of that hand-over in the sender's own
 	// sequence of lease hand-overs (sends on a chan event.LeaseWon / chan mtypes.LeaseID); -1 unknown
 	from string
@@ -261,7 +270,6 @@ type inst struct {
 	submitChan uintptr
 	reqs       map[uintptr]*reqRec
 	reqOrder   []*reqRec
-	byManifest map[*manifest.Manifest]*reqRec
 	glog       map[string][]entry
 	respVer    map[*dtypes.QueryDeploymentResponse]string
 	handoff    map[uintptr][]handover // per lease / lease-removal channel: the hand-overs, in send order
@@ -294,17 +302,16 @@ var (
 
 func newInst(cfg *Config) *inst {
 	in := &inst{
-		cfg:        cfg,
-		reqs:       map[uintptr]*reqRec{},
-		byManifest: map[*manifest.Manifest]*reqRec{},
-		glog:       map[string][]entry{},
-		respVer:    map[*dtypes.QueryDeploymentResponse]string{},
-		handoff:    map[uintptr][]handover{},
-		handSeq:    map[string]int{},
-		nrecvd:     map[uintptr]int{},
-		fired:      map[string]bool{},
-		ncalls:     map[string]int{},
-		clients:    map[string]*clientRec{},
+		cfg:     cfg,
+		reqs:    map[uintptr]*reqRec{},
+		glog:    map[string][]entry{},
+		respVer: map[*dtypes.QueryDeploymentResponse]string{},
+		handoff: map[uintptr][]handover{},
+		handSeq: map[string]int{},
+		nrecvd:  map[uintptr]int{},
+		fired:   map[string]bool{},
+		ncalls:  map[string]int{},
+		clients: map[string]*clientRec{},
 	}
 	for _, e := range cfg.Events {
 		if k, ok := submitKind[e]; ok {
@@ -400,13 +407,10 @@ func (in *inst) tap(ev vs.TapEvent) {
 			// service.run took the request from Submit
 			name, _ := r.Ctx.Value(ctxKey{}).(string)
 			rq := &reqRec{client: name, manifest: r.Manifest, reply: r.Reply}
-			if c := in.clients[name]; c != nil {
-				rq.kind = c.kind
-				rq.hash = hexv(fx.ver[c.kind])
-			}
+			rq.hash = hashOf(r.Manifest)
+			rq.kind = in.kindName(rq.hash)
 			in.reqs[r.Reply] = rq
 			in.reqOrder = append(in.reqOrder, rq)
-			in.byManifest[r.Manifest] = rq
 			return
 		}
 		if rq := in.reqs[r.Reply]; rq != nil {
@@ -432,7 +436,7 @@ type tapBus struct {
 
 func (b *tapBus) Publish(ev pubsub.Event) error {
 	if mr, ok := ev.(event.ManifestReceived); ok {
-		b.in.logG(vs.ID(), entry{k: ePub, pub: mr})
+		b.in.logG(vs.ID(), entry{k: ePub, pub: mr, pubh: hashOf(mr.Manifest)})
 	}
 	return b.Bus.Publish(ev)
 }
@@ -940,6 +944,9 @@ func (in *inst) checkVersion(g string, lg []entry, bad func(string), info map[st
 	dataPos, fetched := -1, ""
 	var ups []verAt
 	recvPos := map[*reqRec]int{}
+	var reqSeq []*reqRec
+	rejectedAt := map[*reqRec]int{}
+	rejectedBy := map[*reqRec]error{}
 	known := func(t int) []string {
 		c := ""
 		for _, u := range ups {
@@ -966,6 +973,44 @@ func (in *inst) checkVersion(g string, lg []entry, bad func(string), info map[st
 			}
 		case eReq:
 			recvPos[e.req] = pos
+			reqSeq = append(reqSeq, e.req)
+		case ePub:
+			// what the provider hands on FOR DEPLOYMENT must be a manifest it could legitimately accept: some
+			// request G had received carries it (same content), was not refused for a reason other than "no
+			// lease", and its hash was a version G knew as current at some moment between taking that request
+			// (with the query answered) and this announcement. (Not: current at the announcement itself - an
+			// accepted manifest is rightly announced again, e.g. for a second lease, after a later update.)
+			h := in.pubHash(e)
+			legit := false
+			for _, rq := range reqSeq {
+				if rq.hash != h || dataPos < 0 {
+					continue
+				}
+				if rp, rej := rejectedAt[rq]; rej && rp < pos && !errors.Is(rejectedBy[rq], pmanifest.ErrNoLeaseForDeployment) {
+					continue
+				}
+				lo := recvPos[rq]
+				if dataPos > lo {
+					lo = dataPos
+				}
+				for t := lo; t <= pos && !legit; t++ {
+					for _, v := range known(t) {
+						if v == h {
+							legit = true
+						}
+					}
+				}
+			}
+			if !legit {
+				what := in.kindName(h)
+				if i := idx(h); i >= 0 {
+					what = fmt.Sprintf("%s(v%d)", what, i)
+				} else {
+					what += "(no version of the deployment)"
+				}
+				bad(sig("version/announced-unaccepted-manifest", "%s announced (ManifestReceived, lease %d) manifest %s, which it never legitimately accepted: no request it had received carries that manifest with a hash it knew as the current version, unrefused (consumed so far: %s)",
+					g, e.pub.LeaseID.GSeq, what, in.versionTrail(lg[:pos])))
+			}
 		case eReply:
 			p, ok := recvPos[e.req]
 			if !ok {
@@ -979,6 +1024,9 @@ func (in *inst) checkVersion(g string, lg []entry, bad func(string), info map[st
 				return k + "(no version of the deployment)"
 			}
 			if e.err != nil {
+				if _, dup := rejectedAt[e.req]; !dup {
+					rejectedAt[e.req], rejectedBy[e.req] = pos, e.err
+				}
 				if errors.Is(e.err, pmanifest.ErrManifestVersion) && dataPos >= 0 {
 					lo := p
 					if dataPos > lo {
@@ -1052,6 +1100,8 @@ func (in *inst) versionTrail(lg []entry) string {
 			}
 		case eReq:
 			b = append(b, "request("+e.req.client+":"+e.req.kind+")")
+		case eReply:
+			b = append(b, "reply("+e.req.client+")="+errName(e.err))
 		}
 	}
 	return strings.Join(b, ", ")
@@ -1084,18 +1134,30 @@ func heldStr(lg []entry) string {
 	return strings.Join(h, " ") + " in the order service.run handed them over; taken by the manager as " + strings.Join(b, " ")
 }
 
-func (in *inst) pubHash(e *entry) string {
-	if rq := in.byManifest[e.pub.Manifest]; rq != nil && rq.hash != "" {
-		return rq.hash
-	}
-	if e.pub.Manifest == nil {
+// hashOf identifies a manifest by CONTENT (never by the address of the manifest.Manifest value, which may be
+// a loop variable or a copy): Submit passes the fixture's slice on, so the backing array tells which fixture it
+// is; anything else is hashed.
+func hashOf(m *manifest.Manifest) string {
+	if m == nil {
 		return "nil"
 	}
-	v, err := sdl.ManifestVersion(*e.pub.Manifest)
+	if len(*m) > 0 {
+		if k, ok := fx.byArray[&(*m)[0]]; ok && len(*m) == len(fx.mani[k]) {
+			return hexv(fx.ver[k])
+		}
+	}
+	v, err := sdl.ManifestVersion(*m)
 	if err != nil {
 		return "unhashable"
 	}
 	return hexv(v)
+}
+
+func (in *inst) pubHash(e *entry) string {
+	if e.pubh != "" {
+		return e.pubh
+	}
+	return hashOf(e.pub.Manifest)
 }
 
 func (in *inst) kindName(h string) string {
